@@ -29,7 +29,9 @@ EMPTY_PKG = b'{"modules":[],"extensions":[]}'
 
 
 def pkg_doc(p):
-    return json.loads(p._to_serial().model_dump_json())
+    """The package as a document, composed from the documents of its current modules and extensions
+    (not from the package's own serializer)."""
+    return {"modules": [json.loads(m._to_serial().model_dump_json()) for m in p.modules], "extensions": [json.loads(e._to_serial().model_dump_json()) for e in p.extensions]}
 
 
 def check_pkg(case) -> list[Fail]:
@@ -95,6 +97,18 @@ def check_pkg(case) -> list[Fail]:
             f += [Fail(x.clause, "after-rejected-input:" + x.locus, x.msg) for x in same_package(Package.from_bytes(b), doc, "bytes")]
         except Exception as e:  # noqa: BLE001
             f.append(Fail("from_bytes", "intact-envelope-refused-after-a-rejected-one", f"{type(e).__name__}: {e}"[:200]))
+    # the package is what it holds when it is encoded: one more module after a first encoding shows up
+    try:
+        from hugr.build.function import Module as _Module
+
+        extra = _Module()
+        extra.declare_function("added_later", __import__("hugr").tys.PolyFuncType([], __import__("hugr").tys.FunctionType([], [])))
+        p.modules.append(extra.hugr)
+        doc_later = pkg_doc(p)
+        f += [Fail(x.clause, "after-a-module-was-added:" + x.locus, x.msg) for x in same_package(Package.from_bytes(p.to_bytes(cfg)), doc_later, "bytes")]
+        p.modules.pop()
+    except Exception as e:  # noqa: BLE001
+        f.append(exc_fail("encode-again", e))
     if case["zstd"] is None:
         try:
             s = p.to_str(cfg)
